@@ -52,22 +52,21 @@ func runLs(idLookup NameLookupFileLister, dirent os.FileInfo) string {
 	var numLinks uint64 = 1
 	uid, gid := "0", "0"
 
-	switch sys := dirent.Sys().(type) {
-	case *sshfx.Attributes:
-		uid = lsFormatID(sys.UID)
-		gid = lsFormatID(sys.GID)
-	case *FileStat:
-		uid = lsFormatID(sys.UID)
-		gid = lsFormatID(sys.GID)
-	default:
-		if fiExt, ok := dirent.(FileInfoUidGid); ok {
-			uid = lsFormatID(fiExt.Uid())
-			gid = lsFormatID(fiExt.Gid())
-
-			break
+	// the same precedence as the attributes (fileStatFromInfo): FileInfoUidGid wins over whatever Sys() holds
+	if fiExt, ok := dirent.(FileInfoUidGid); ok {
+		uid = lsFormatID(fiExt.Uid())
+		gid = lsFormatID(fiExt.Gid())
+	} else {
+		switch sys := dirent.Sys().(type) {
+		case *sshfx.Attributes:
+			uid = lsFormatID(sys.UID)
+			gid = lsFormatID(sys.GID)
+		case *FileStat:
+			uid = lsFormatID(sys.UID)
+			gid = lsFormatID(sys.GID)
+		default:
+			numLinks, uid, gid = lsLinksUIDGID(dirent)
 		}
-
-		numLinks, uid, gid = lsLinksUIDGID(dirent)
 	}
 
 	if idLookup != nil {
